@@ -43,6 +43,15 @@ CHECKS = {
  "C12": ("exploration", "runtime monitoring: command histories against a reference cassette deck; edge log parsed in concatenated playing time",
          "Scripted/random histories over {play, stop, rewind, advance} at mid-pilot/sync/byte/bit/pause/after-end positions incl. repeated commands, at Tap level and through Emulator::{play,stop,rewind}_tape with EAR sampled by emulated IN; frozen level while stopped, blocks each once in order, clean pilot after rewind/end.",
          "Uses the rustzx_core::verif re-export; at emulator level end-of-tape is inferred from silence.", "DESIGN.md §3 C12"),
+ "C13": ("exploration", "runtime monitoring: save/load round trips with full-state digests (side-effect freedom), independent SNA parser, behavioural twin single-stepped after the load",
+         "Machines brought to random states without any loader, saved as SNA (registers/RAM/paging/border must be unchanged by saving; file compared item by item by an independent parser), loaded into the same emulator later (ran on, halted, mid DD-chain, EI-pending, paging locked) and into a fresh one; every SNA item, latch+lock and all RAM compared, then 64 single steps against a pristine machine in the described state.",
+         "48K: the two bytes below SP exempt on the load side (format keeps PC there), SP generated in RAM; frame clock not judged.", "DESIGN.md §3 C13"),
+ "C14": ("exploration", "runtime monitoring: loaders run on files from independent format writers; abstract state compared through hooks + behavioural probes; SNA/SZX twins",
+         "Well-formed 48K/128K SNA, SZX (stored / zlib by miniz_oxide / hand-made stored-deflate pages, shuffled and unknown chunks, CRTR/KEYB/AMXM/AY) and SCR files loaded into hostile prior machines; registers, IFFs, IM, border, latch+lock, every RAM byte and ROM selection compared, one behavioural probe per case (interrupt acceptance / EI-pending, HALTED under both PC conventions, canvas, AY read-back + audible tone/silence, mouse presence), SNA-vs-SZX twins stepped 200 instructions, model-mismatch files must be rejected.",
+         "Writers (harness/src/spec_snap.rs) typed from the format specifications; dwCyclesStart, KEYB joystick type, Q/MEMPTR after SNA not judged.", "DESIGN.md §3 C14"),
+ "C15": ("fault_enumeration", "runtime monitoring: loaders run in watched worker sub-processes (release and overflow-checked builds) under catch_unwind, a hang watchdog and a counting global allocator; asset faults enumerated per read/seek index",
+         "Structure-aware mutants of valid SNA/SZX/TAP/SCR/ROM/gzip/VTX files, havoc mutations and random strings of structured lengths, each through an in-memory cursor and a short-read asset, followed by frames / tape play / fast-load requests; for selected inputs (thorough: all, x3 failure kinds) every read/seek index is failed in turn. Oracle: no panic, no arithmetic overflow (checked build), completion within a generous per-case limit re-confirmed alone, largest single allocation <= 1 MiB + 2*1032*input length.",
+         "A missing checked-profile binary or an unconfirmed hang makes the run INCONCLUSIVE; known finding: delharc (third-party) panics on some invalid LH5 streams.", "DESIGN.md §3 C15"),
  "C16": ("exploration", "runtime monitoring: differential twin executions, digests compared at equal emulated instants (frame numbers from the driving / frame-clock hook)",
          "Scenarios (ROM boot, random programs, repository snapshots, tape loading real-time and fast) with key events at frame boundaries under the reference driving and under repetition, FrameCount(n) partitions, Max mode with scripted stopwatch readings, breakpoint stop/resume, sound off, AY mixing off, drain every 3rd frame / never, file/gzip/short-read assets; CPU+RAM+paging+border and both frame buffers compared at every event frame and at the end, audio between equal drain policies.",
          "Digest = FNV-1a 64 over registers, all RAM pages (hook), paging, border colour and both frame buffers.", "DESIGN.md §3 C16"),
